@@ -10,7 +10,7 @@
 (*                             specification treats it as one opaque      *)
 (*                             entry (the harness knows its contents)      *)
 (* cfg = [version, nowrap, stdin, spell]; spell: how the source directory  *)
-(* is named on the command line ("abs" | "dot" | "dirdot")                 *)
+(* is named on the command line ("abs" | "dot" | "dirdot" | "hidden")      *)
 (* Packed(t, wrap) is the root directory of the DAG the tool builds: with  *)
 (* wrapping a directory holding one entry named like the source directory, *)
 (* without it the source directory itself.  Extracted(t, wrap) is the set  *)
@@ -49,9 +49,10 @@ Original == Paths(<<>>, t)
 (* The wrapper entry is named like the last element of the source path AS SPELLED on the command
    line: "src" for /abs/path/src, but "." for `car create .` (run inside the tree) and for `src/.`;
    an entry named "." extracts onto the output directory itself. *)
-Wrapped == ~cfg.nowrap /\ cfg.spell = "abs"
-Extracted == IF Wrapped THEN {[path |-> <<"src">>, k |-> "dir"]} \cup Paths(<<"src">>, t) ELSE Paths(<<>>, t)
-Strip(S) == { IF Len(x.path) > 0 /\ x.path[1] = "src" /\ Wrapped THEN [x EXCEPT !.path = Tail(@)] ELSE x : x \in S }
+Wrapped == ~cfg.nowrap /\ cfg.spell \in {"abs", "hidden"}
+WrapName == IF cfg.spell = "hidden" THEN ".src" ELSE "src"        \* "hidden": the source directory is /abs/.src
+Extracted == IF Wrapped THEN {[path |-> <<WrapName>>, k |-> "dir"]} \cup Paths(<<WrapName>>, t) ELSE Paths(<<>>, t)
+Strip(S) == { IF Len(x.path) > 0 /\ x.path[1] = WrapName /\ Wrapped THEN [x EXCEPT !.path = Tail(@)] ELSE x : x \in S }
 RoundTrip == { x \in Strip(Extracted) : x.path # <<>> } = Original
 
 Emit == PrintT(ToJson([rec |-> "tree", tree |-> t, cfg |-> cfg, expected |-> Extracted]))
